@@ -26,6 +26,11 @@ PROGRAMS = [
      [(1,), ([1, 2],), ({"k": "v"},), ("s",)]),
     ("def f(x: int):\n    while True:\n        x = x - 1\n        if x < 0:\n            break\n    return x\n", [(0,), (3,)]),
     ("def f(s: str, n: int):\n    return (s and n, s or n, not s, len(s) == n, s in ('a', 'b'))\n", [("", 0), ("a", 1), ("zz", 0)]),
+    # a literal index at the position of an unpacked member, and past it
+    ("def f(a: int, rest: list, fl: float):\n    t = (a, *rest, fl)\n    return (t[1], t[-1], t[0])\n", [(1, [], 1.5), (1, ["s"], 2.5), (1, ["s", "t"], 0.5)]),
+    # match: an opaque guard that fails must not remove the pattern's values from later cases
+    ("from typing import Optional\ndef g() -> bool:\n    return False\ndef f(x: Optional[int]):\n    match x:\n        case None if g():\n            r = x\n        case 1 if g():\n            r = x\n        case _:\n            r = x\n    return r\n",
+     [(None,), (1,), (2,)]),
     # a narrowing condition saved in a variable, with the narrowed variable reassigned on some paths only
     ("from typing import Union\ndef f(x: Union[int, str], flag: bool):\n    is_int = isinstance(x, int)\n    if flag:\n        x = 're'\n    if is_int:\n        return x\n    return x\n",
      [(1, True), (1, False), ("s", True), ("s", False)]),
@@ -127,6 +132,10 @@ def search():
         for args in arglists:
             del seen[:]
             ns["f"](*args)
+            from replay.util import count, sample
+            count(evaluations=len(seen), distinct=1)
+            if src is PROGRAMS[0][0] and args is arglists[0]:
+                sample({"program": src, "arguments": repr(args), "evaluated_nodes_checked": len(seen), "rule": "runtime value of every evaluated node belongs to its inferred type"})
             for i, v in seen:
                 node = ins.nodes[i]
                 inferred = node.inferred_value
